@@ -15,7 +15,7 @@ Written from the reference manual (section "Statistical analysis"), not from the
        C_ij(tau) = < PI( xi_i(t0), xi_j(t0+tau) ) >_t0
    PI = product (scalars), scalar product (vectors); coordinate_p2: P2 of the cosine of the angle between
    the two vectors.  "velocity": the same with the velocities.  Normalised: C(tau)/C(0), with
-   C(0) = < PI(xi_i(t0), xi_j(t0)) > (1 for coordinate_p2).  The average runs over a set of time origins
+   C(0) = < PI(xi_i(t0), xi_j(t0)) >.  The average runs over a set of time origins
    given by the caller (the file states how many samples it used; see monitors/c19.py for how the set is
    chosen without demanding more than the manual says).
 
@@ -80,7 +80,7 @@ def corr_function(kind, xi, xj, lags, frames, normalize):
     out = []
     c0 = 1.0
     if normalize:
-        c0 = 1.0 if kind == "coordinate_p2" else corr_value(kind, xi, xj, 0, frames)
+        c0 = corr_value(kind, xi, xj, 0, frames)   # (= 1 for a coordinate_p2 autocorrelation function)
     for lag in lags:
         v = corr_value(kind, xi, xj, lag, frames)
         if v is None or c0 is None:
